@@ -9,6 +9,7 @@ import numpy as np
 
 from vp import gen, probe, propmodel, refmodels as rm
 from vp import defaults
+from vp import reuse
 
 RULE = ('seeded generator: pupils (even and odd, <= grid) with FFT grids 6..48 per side (..96 thorough) of either parity, '
         '1/alpha = grid + delta (|delta| < 0.45) so the reported wavelength differs from the input one, isotropic and '
@@ -57,6 +58,7 @@ def clone_at(lentil, w, wavelength):
 
 def workload(ctx, lentil):
     defaults.run(ctx, lentil, 'C09', 'fft=dft')
+    reuse.run(ctx, lentil, 'C09', 'fft=dft')
     rng = ctx.rng
     n = ctx.count(90, 600)
     gmax = 48 if ctx.tier == 'quick' else 96
